@@ -490,9 +490,23 @@ static Plan gen_plan(uint64_t runseed) {
   } else if (O.engine == "purity") {
     p.locale = pick_locale(rp, true);
     auto& ops = p.tasks[0].ops;
-    if (O.batch == "perm") {
+    if (O.batch == "long") {
+      // thousands of calls of one to three functions in one process, with arguments that repeat: state that only
+      // goes wrong after many calls of the same function (a cache that evicts, wraps or is "warm" at the N-th
+      // entry) cannot show in a 200-op history over 130 entry points
+      int k = O.tier == "thorough" ? rp.range(2500, 3900) : rp.range(1500, 3000);
+      int nf = rp.chance(3, 5) ? 1 : rp.range(2, 3), focus[3];
+      for (int j = 0; j < nf; j++) focus[j] = (int)rp.below(g_nqueries);
+      for (int i = 0; i < k; i++) {
+        Op o = gen_query_op_for(rp, p.next_id++, focus[rp.below(nf)]);
+        o.keep = 0;
+        o.selfc = 1;
+        o.probe = (i >= k - 40 || rp.chance(1, 25)) ? 1 : 0;   // references for these are computed on demand
+        ops.push_back(o);
+      }
+    } else if (O.batch == "perm") {
       int k = std::min<int>(O.max_ops * 4, (int)g_catalogue.size());
-      if (k > MAXOPS - 20) k = MAXOPS - 20;
+      if (k > 300) k = 300;
       size_t base = rp.below(g_catalogue.size());
       std::vector<Op> sel;
       for (int i = 0; i < k; i++) sel.push_back(g_catalogue[(base + (size_t)i * 7919) % g_catalogue.size()]);
@@ -622,6 +636,34 @@ static Outcome evaluate(const Plan& p, bool count = true, bool keep_log = false)
         bool dup = false;
         for (auto& x : o.sigs) dup = dup || x.key() == s.key();
         if (!dup) o.sigs.push_back(s);
+      }
+    }
+    // oracle 1b: within one process, the same self-contained call must give the same result every time
+    {
+      std::unordered_map<std::string, std::pair<uint64_t, int>> seen;   // key -> (digest, failed)
+      size_t pos2 = 0;
+      for (auto& op : p.tasks[0].ops) {
+        if (pos2 >= o.res[0].size()) break;
+        const OpResult& got = o.res[0][pos2++];
+        if (!op.selfc || op.fail || !got.done || got.fault_fired) continue;
+        if (op.kind == OK_DEPRECATED || op.kind == OK_INIT) continue;
+        Op k = op; k.id = 0; k.probe = 0;
+        std::string key = op_to_text(k);
+        auto it = seen.find(key);
+        if (it == seen.end()) { seen[key] = {got.digest, got.failed}; continue; }
+        if (it->second.first != got.digest || it->second.second != got.failed) {
+          Sig s;
+          s.cls = "history-dependence";
+          s.site = (op.kind == OK_Q || op.kind == OK_CR_MATH) ? op.fn : kOpNames[op.kind];
+          char b[300];
+          snprintf(b, sizeof b, "op %d (%s) gave digest %016llx failed=%d, the same call earlier in this process gave %016llx failed=%d", op.id,
+                   key.substr(0, 120).c_str(), (unsigned long long)got.digest, got.failed, (unsigned long long)it->second.first, it->second.second);
+          s.detail = b; s.op = op.id;
+          bool dup = false;
+          for (auto& x : o.sigs) dup = dup || x.key() == s.key();
+          if (!dup) o.sigs.push_back(s);
+          break;
+        }
       }
     }
     if (!o.sigs.empty() && o.status == ST_OK) o.status = ST_VIOL;
